@@ -367,6 +367,17 @@ type wWorkloadOpts struct {
 	shape func(r *core.Rand, call *wCall, msgs []kafka.Message)
 	// ctxFor returns the context for a call (default background).
 	ctxFor func(g, call int) context.Context
+	// rands, when set, are the per-caller generators (a caller that runs the workload in its own
+	// goroutine forks them beforehand so that the case's generator is only used by one goroutine).
+	rands []*core.Rand
+}
+
+func wForkRands(k *core.Case, cfg wCfg) []*core.Rand {
+	rs := make([]*core.Rand, cfg.Goroutines)
+	for g := range rs {
+		rs[g] = k.R.Fork()
+	}
+	return rs
 }
 
 // wRunWorkload starts the callers and waits for them, then closes the writer
@@ -374,9 +385,9 @@ type wWorkloadOpts struct {
 func wRunWorkload(k *core.Case, run *wRun, opts wWorkloadOpts) {
 	cfg := run.Cfg
 	var wg sync.WaitGroup
-	rs := make([]*core.Rand, cfg.Goroutines)
-	for g := range rs {
-		rs[g] = k.R.Fork()
+	rs := opts.rands
+	if rs == nil {
+		rs = wForkRands(k, cfg)
 	}
 	for g := 0; g < cfg.Goroutines; g++ {
 		wg.Add(1)
